@@ -1012,11 +1012,13 @@ func lxExecIter(toks []string) string {
 		brk = n
 	}
 	var seen []string
+	pulled := 0 // elements the loop made the source hand out (a broken-out loop must not drain the rest)
+	counted := func() stream.Stream[int] { return lxStream(xs, fail).Peek(func(int) { pulled++ }) }
 	res := lxMust(func() string {
 		switch toks[0] {
 		case "idx=0":
 			n := 0
-			for v := range lxStream(xs, fail).Iterator {
+			for v := range counted().Iterator {
 				seen = append(seen, strconv.Itoa(v))
 				if n == brk {
 					break
@@ -1025,7 +1027,7 @@ func lxExecIter(toks []string) string {
 			}
 		case "idx=1":
 			n := 0
-			for i, v := range lxStream(xs, fail).IndexedIterator {
+			for i, v := range counted().IndexedIterator {
 				seen = append(seen, fmt.Sprintf("%d:%d", i, v))
 				if n == brk {
 					break
@@ -1040,7 +1042,7 @@ func lxExecIter(toks []string) string {
 	if res == "bad-case" {
 		return res
 	}
-	return "seen=" + lxFmtStrs(seen) + " " + res
+	return "seen=" + lxFmtStrs(seen) + " " + res + fmt.Sprintf(" pulled=%d", pulled)
 }
 
 // ---------------------------------------------------------------- sources and thin operators
